@@ -104,6 +104,10 @@ def path_grid(ctx, job, box):
     frame = bool_and(fields_same(L, pre, post, except_=('buffer', 'dirty', 'cursor')),
                      cursor_same(L, pre, post, except_=('x', 'y')))
     checks.append(run.check(frame, '%s changed state other than grid, cursor position and dirty set' % op))
+    # "the line pushed out is gone": it must not survive in storage outside the screen either
+    checks.append(run.check(no_hidden(L, post, cols, lines),
+                            '%s keeps a line or cell in storage beyond the screen (it is not gone; a taller or wider '
+                            'resize shows it again)' % op))
     return checks
 
 
